@@ -81,7 +81,26 @@ func (c *Ctx) dumpEvents(fd *ast.FuncDecl) (events []serEvent, problems []string
 	var walk func(list []ast.Stmt, elem map[types.Object]string) []serEvent
 	// inlineHelper: a call f(w, ..., x, ...) of a package function that receives the writer is
 	// analysed in place, its parameters standing for the described arguments
+	localLits := map[types.Object]*ast.FuncLit{}
 	inlineHelper := func(call *ast.CallExpr, elem map[types.Object]string) ([]serEvent, bool) {
+		if id, isID := call.Fun.(*ast.Ident); isID && depth <= 2 {
+			if lit := localLits[c.objOf(id)]; lit != nil {
+				el := map[types.Object]string{}
+				k := 0
+				for _, f := range lit.Type.Params.List {
+					for _, nm := range f.Names {
+						if k < len(call.Args) {
+							el[c.objOf(nm)] = describe(call.Args[k], elem)
+						}
+						k++
+					}
+				}
+				depth++
+				ev := walk(lit.Body.List, el)
+				depth--
+				return ev, true
+			}
+		}
 		fn, ok := c.callee(call).(*types.Func)
 		if !ok || fn.Pkg() == nil || fn.Pkg().Path() != bclPath || depth > 2 {
 			return nil, false
@@ -121,6 +140,11 @@ func (c *Ctx) dumpEvents(fd *ast.FuncDecl) (events []serEvent, problems []string
 			switch s := s.(type) {
 			case *ast.AssignStmt:
 				if len(s.Rhs) != 1 {
+					continue
+				}
+				if lit, isLit := s.Rhs[0].(*ast.FuncLit); isLit && len(s.Lhs) == 1 {
+					// a local helper closure (it captures the writer and the scratch buffer)
+					localLits[c.objOf(s.Lhs[0])] = lit
 					continue
 				}
 				call, ok := s.Rhs[0].(*ast.CallExpr)
@@ -247,139 +271,205 @@ func (c *Ctx) loadEvents(fd *ast.FuncDecl) (events []serEvent, problems []string
 	raws := map[types.Object]string{}  // byte slices read with a known count
 	sized := map[string]types.Object{} // prog field -> count var used in make()
 	var lastU *serEvent
-	for _, s := range fd.Body.List {
-		switch s := s.(type) {
-		case *ast.AssignStmt:
-			if len(s.Rhs) != 1 {
-				continue
+	depth := 0
+	var walk func(list []ast.Stmt)
+	walk = func(list []ast.Stmt) {
+		for _, s := range list {
+			if ifs, ok := s.(*ast.IfStmt); ok && ifs.Init != nil {
+				// if err = helper(r); err != nil { return err }
+				s = ifs.Init
 			}
-			rhs := s.Rhs[0]
-			if call, ok := rhs.(*ast.CallExpr); ok {
-				switch c.calleeName(call) {
-				case "bufio.NewReaderSize", "bufio.NewReader":
-					robj = c.objOf(s.Lhs[0])
+			switch s := s.(type) {
+			case *ast.AssignStmt:
+				if len(s.Rhs) != 1 {
 					continue
-				case "uvarintFromBuf":
-					counts[c.objOf(s.Lhs[0])] = true
-					events = append(events, serEvent{Kind: "U", What: "?", Pos: call.Pos()})
-					lastU = &events[len(events)-1]
-					continue
-				case "bytesFromBuf":
-					if len(call.Args) == 2 && counts[c.objOfExpr(call.Args[1])] {
-						raws[c.objOf(s.Lhs[0])] = "counted"
-						events = append(events, serEvent{Kind: "RAW", What: "?", Pos: call.Pos()})
-						continue
-					}
-					problems = append(problems, c.pos(call.Pos())+": bytesFromBuf with a count that is not the varint just read")
-					continue
-				case "io.ReadFull":
-					// header (b[:2]) or a sized Prog field
-					if f := c.progField(call.Args[1]); f != "" {
-						if sized[f] == nil {
-							problems = append(problems, c.pos(call.Pos())+": "+f+" is read without having been sized from the stream")
+				}
+				rhs := s.Rhs[0]
+				if call, ok := rhs.(*ast.CallExpr); ok {
+					// a helper of the module that is handed the reader: its reads happen here, in its order
+					if fn, ok := c.callee(call).(*types.Func); ok && fn.Pkg() != nil && fn.Pkg().Path() == bclPath && depth < 3 {
+						switch funcName(fn) {
+						case "uvarintFromBuf", "bytesFromBuf", "valueFromBuf":
+						default:
+							if hd := c.funcDecls[fn]; hd != nil && hd.Body != nil && robj != nil {
+								for i, a := range call.Args {
+									if c.isObj(a, robj) {
+										saved := robj
+										robj = c.paramObj(hd, i)
+										depth++
+										walk(hd.Body.List)
+										depth--
+										robj = saved
+										break
+									}
+								}
+								continue
+							}
 						}
-						if lastU != nil && lastU.What == "?" {
-							lastU.What = "len(" + f + ")"
-						}
-						events = append(events, serEvent{Kind: "RAW", What: f, Pos: call.Pos()})
-						continue
 					}
-					events = append(events, serEvent{Kind: "HDR", What: "2", Pos: call.Pos()})
-					continue
-				case "make":
-					if f := c.progField(s.Lhs[0]); f != "" && len(call.Args) >= 2 {
-						if obj := c.objOfExpr(call.Args[1]); counts[obj] {
-							sized[f] = obj
+					switch c.calleeName(call) {
+					case "bufio.NewReaderSize", "bufio.NewReader":
+						robj = c.objOf(s.Lhs[0])
+						continue
+					case "uvarintFromBuf":
+						counts[c.objOf(s.Lhs[0])] = true
+						events = append(events, serEvent{Kind: "U", What: "?", Pos: call.Pos()})
+						lastU = &events[len(events)-1]
+						continue
+					case "bytesFromBuf":
+						if len(call.Args) == 2 && counts[c.objOfExpr(call.Args[1])] {
+							raws[c.objOf(s.Lhs[0])] = "counted"
+							events = append(events, serEvent{Kind: "RAW", What: "?", Pos: call.Pos()})
+							continue
+						}
+						problems = append(problems, c.pos(call.Pos())+": bytesFromBuf with a count that is not the varint just read")
+						continue
+					case "io.ReadFull":
+						// header (b[:2]) or a sized Prog field
+						if f := c.progField(call.Args[1]); f != "" {
+							if sized[f] == nil {
+								problems = append(problems, c.pos(call.Pos())+": "+f+" is read without having been sized from the stream")
+							}
 							if lastU != nil && lastU.What == "?" {
 								lastU.What = "len(" + f + ")"
 							}
+							events = append(events, serEvent{Kind: "RAW", What: f, Pos: call.Pos()})
 							continue
 						}
-						problems = append(problems, c.pos(call.Pos())+": "+f+" is sized by something other than the varint just read")
+						events = append(events, serEvent{Kind: "HDR", What: "2", Pos: call.Pos()})
+						continue
+					case "make":
+						if f := c.progField(s.Lhs[0]); f != "" && len(call.Args) >= 2 {
+							if obj := c.objOfExpr(call.Args[1]); counts[obj] {
+								sized[f] = obj
+								if lastU != nil && lastU.What == "?" {
+									lastU.What = "len(" + f + ")"
+								}
+								continue
+							}
+							problems = append(problems, c.pos(call.Pos())+": "+f+" is sized by something other than the varint just read")
+						}
+						continue
 					}
-					continue
-				}
-				if sel, ok := call.Fun.(*ast.SelectorExpr); ok && c.isObj(sel.X, robj) {
-					if sel.Sel.Name == "Read" {
-						events = append(events, serEvent{Kind: "TRAIL", Pos: call.Pos()})
-					} else {
-						problems = append(problems, c.pos(call.Pos())+": reader method "+sel.Sel.Name+" used in Load")
+					if sel, ok := call.Fun.(*ast.SelectorExpr); ok && c.isObj(sel.X, robj) {
+						if sel.Sel.Name == "Read" {
+							events = append(events, serEvent{Kind: "TRAIL", Pos: call.Pos()})
+						} else {
+							problems = append(problems, c.pos(call.Pos())+": reader method "+sel.Sel.Name+" used in Load")
+						}
+						continue
 					}
-					continue
-				}
-				// prog.name = string(p)
-				if f := c.progField(s.Lhs[0]); f != "" {
-					if raws[c.objOfExpr(call.Args[0])] != "" {
-						for i := len(events) - 1; i >= 0; i-- {
-							if events[i].Kind == "RAW" && events[i].What == "?" {
-								events[i].What = f
-								break
+					// prog.name = string(p)
+					if f := c.progField(s.Lhs[0]); f != "" {
+						if raws[c.objOfExpr(call.Args[0])] != "" {
+							for i := len(events) - 1; i >= 0; i-- {
+								if events[i].Kind == "RAW" && events[i].What == "?" {
+									events[i].What = f
+									break
+								}
+							}
+							if lastU != nil && lastU.What == "?" {
+								lastU.What = "len(" + f + ")"
 							}
 						}
-						if lastU != nil && lastU.What == "?" {
-							lastU.What = "len(" + f + ")"
-						}
 					}
+					continue
 				}
-				continue
-			}
-			// prog.linePos = &lineCalc{lfs: make([]int, int(m))}
-			if ue, ok := rhs.(*ast.UnaryExpr); ok && ue.Op == token.AND {
-				if cl, ok := ue.X.(*ast.CompositeLit); ok {
-					for _, el := range cl.Elts {
-						if kv, ok := el.(*ast.KeyValueExpr); ok {
-							if call, ok := kv.Value.(*ast.CallExpr); ok && c.calleeName(call) == "make" && len(call.Args) >= 2 {
-								if obj := c.objOfExpr(call.Args[1]); counts[obj] {
-									f := kv.Key.(*ast.Ident).Name
-									sized[f] = obj
-									if lastU != nil && lastU.What == "?" {
-										lastU.What = "len(" + f + ")"
+				// prog.linePos = &lineCalc{lfs: make([]int, int(m))}
+				if ue, ok := rhs.(*ast.UnaryExpr); ok && ue.Op == token.AND {
+					if cl, ok := ue.X.(*ast.CompositeLit); ok {
+						for _, el := range cl.Elts {
+							if kv, ok := el.(*ast.KeyValueExpr); ok {
+								if call, ok := kv.Value.(*ast.CallExpr); ok && c.calleeName(call) == "make" && len(call.Args) >= 2 {
+									if obj := c.objOfExpr(call.Args[1]); counts[obj] {
+										f := kv.Key.(*ast.Ident).Name
+										sized[f] = obj
+										if lastU != nil && lastU.What == "?" {
+											lastU.What = "len(" + f + ")"
+										}
 									}
 								}
 							}
 						}
 					}
 				}
-			}
-		case *ast.ForStmt:
-			// for i := 0; i < int(m); i++ { prog.X[i] = decode }
-			cond, ok := stripParens(s.Cond).(*ast.BinaryExpr)
-			if !ok || cond.Op != token.LSS || !counts[c.objOfExpr(cond.Y)] {
-				problems = append(problems, c.pos(s.Pos())+": a section loop is not bounded by the count read from the stream")
-				continue
-			}
-			bound := c.objOfExpr(cond.Y)
-			var field, kind string
-			ast.Inspect(s.Body, func(n ast.Node) bool {
-				switch n := n.(type) {
-				case *ast.CallExpr:
-					switch c.calleeName(n) {
-					case "valueFromBuf":
-						kind = "VALUE"
-					case "uvarintFromBuf":
-						kind = "U"
-					}
-				case *ast.AssignStmt:
-					for _, l := range n.Lhs {
-						if ix, ok := l.(*ast.IndexExpr); ok {
-							if f := c.progField(ix.X); f != "" {
-								field = f
+			case *ast.ForStmt:
+				// for i := 0; i < int(m); i++ { prog.X[i] = decode }
+				cond, ok := stripParens(s.Cond).(*ast.BinaryExpr)
+				if !ok || cond.Op != token.LSS || !counts[c.objOfExpr(cond.Y)] {
+					problems = append(problems, c.pos(s.Pos())+": a section loop is not bounded by the count read from the stream")
+					continue
+				}
+				bound := c.objOfExpr(cond.Y)
+				var field, kind string
+				ast.Inspect(s.Body, func(n ast.Node) bool {
+					switch n := n.(type) {
+					case *ast.CallExpr:
+						switch c.calleeName(n) {
+						case "valueFromBuf":
+							kind = "VALUE"
+						case "uvarintFromBuf":
+							kind = "U"
+						}
+					case *ast.AssignStmt:
+						for _, l := range n.Lhs {
+							if ix, ok := l.(*ast.IndexExpr); ok {
+								if f := c.progField(ix.X); f != "" {
+									field = f
+								}
 							}
 						}
 					}
+					return true
+				})
+				if field == "" || kind == "" {
+					problems = append(problems, c.pos(s.Pos())+": a section loop does not decode into a Prog field")
+					continue
 				}
-				return true
-			})
-			if field == "" || kind == "" {
-				problems = append(problems, c.pos(s.Pos())+": a section loop does not decode into a Prog field")
-				continue
+				if sized[field] != bound {
+					problems = append(problems, c.pos(s.Pos())+": section "+field+" is decoded in a loop bounded by a different count than the one that sized it")
+				}
+				events = append(events, serEvent{Kind: "LOOP", What: field, Inner: []serEvent{{Kind: kind, What: "elem(" + field + ")"}}, Pos: s.Pos()})
+			case *ast.RangeStmt:
+				// for i := range prog.X { prog.X[i] = decode }: bounded by the length X was sized to
+				rf := c.progField(s.X)
+				if rf == "" || sized[rf] == nil {
+					problems = append(problems, c.pos(s.Pos())+": a section loop ranges over something that was not sized by a count read from the stream")
+					continue
+				}
+				var field, kind string
+				ast.Inspect(s.Body, func(n ast.Node) bool {
+					switch n := n.(type) {
+					case *ast.CallExpr:
+						switch c.calleeName(n) {
+						case "valueFromBuf":
+							kind = "VALUE"
+						case "uvarintFromBuf":
+							kind = "U"
+						}
+					case *ast.AssignStmt:
+						for _, l := range n.Lhs {
+							if ix, ok := l.(*ast.IndexExpr); ok {
+								if f := c.progField(ix.X); f != "" {
+									field = f
+								}
+							}
+						}
+					}
+					return true
+				})
+				if field == "" || kind == "" {
+					problems = append(problems, c.pos(s.Pos())+": a section loop does not decode into a Prog field")
+					continue
+				}
+				if field != rf {
+					problems = append(problems, c.pos(s.Pos())+": section "+field+" is decoded in a loop over "+rf)
+				}
+				events = append(events, serEvent{Kind: "LOOP", What: field, Inner: []serEvent{{Kind: kind, What: "elem(" + field + ")"}}, Pos: s.Pos()})
 			}
-			if sized[field] != bound {
-				problems = append(problems, c.pos(s.Pos())+": section "+field+" is decoded in a loop bounded by a different count than the one that sized it")
-			}
-			events = append(events, serEvent{Kind: "LOOP", What: field, Inner: []serEvent{{Kind: kind, What: "elem(" + field + ")"}}, Pos: s.Pos()})
 		}
 	}
+	walk(fd.Body.List)
 	return
 }
 
@@ -838,13 +928,88 @@ func ruleUvarintLen(c *Ctx, r *Report, rule string) {
 
 // ---------------------------------------------------------------- read discipline
 
-var loadFuncs = []string{"Prog.Load", "uvarintFromBuf", "valueFromBuf", "bytesFromBuf"}
+// loadFuncNames: Load and the module functions it reaches by static calls
+// that are handed a reader (the decoding helpers, however many there are).
+func (c *Ctx) loadFuncNames() []string {
+	obj, fd := c.find("Prog.Load")
+	if fd == nil {
+		return []string{"Prog.Load"}
+	}
+	takesReader := func(fn *types.Func) bool {
+		sig := fn.Type().(*types.Signature)
+		for i := 0; i < sig.Params().Len(); i++ {
+			switch types.TypeString(sig.Params().At(i).Type(), nil) {
+			case "*bufio.Reader", "io.Reader", "io.ByteReader":
+				return true
+			}
+		}
+		return false
+	}
+	seen := map[types.Object]bool{obj: true}
+	out := []string{"Prog.Load"}
+	var rest []string
+	var visit func(d *ast.FuncDecl)
+	visit = func(d *ast.FuncDecl) {
+		walkCalls(d.Body, false, func(call *ast.CallExpr) {
+			fn, ok := c.callee(call).(*types.Func)
+			if !ok || seen[fn] || fn.Pkg() == nil || fn.Pkg().Path() != bclPath || !takesReader(fn) {
+				return
+			}
+			seen[fn] = true
+			if hd := c.funcDecls[fn]; hd != nil && hd.Body != nil {
+				rest = append(rest, qname(fn))
+				visit(hd)
+			}
+		})
+	}
+	visit(fd)
+	sort.Strings(rest)
+	return append(out, rest...)
+}
+
+// loadFlatStmts: Load's statements with the bodies of reader-taking helpers
+// (other than the three decoders) spliced in where they are called.
+func (c *Ctx) loadFlatStmts(fd *ast.FuncDecl, depth int) []ast.Stmt {
+	var out []ast.Stmt
+	for _, s := range fd.Body.List {
+		var call *ast.CallExpr
+		probe := s
+		if ifs, ok := s.(*ast.IfStmt); ok && ifs.Init != nil {
+			probe = ifs.Init
+		}
+		if as, ok := probe.(*ast.AssignStmt); ok && len(as.Rhs) == 1 {
+			call, _ = as.Rhs[0].(*ast.CallExpr)
+		}
+		if call != nil && depth < 3 {
+			if fn, ok := c.callee(call).(*types.Func); ok && fn.Pkg() != nil && fn.Pkg().Path() == bclPath {
+				switch funcName(fn) {
+				case "uvarintFromBuf", "bytesFromBuf", "valueFromBuf":
+				default:
+					if hd := c.funcDecls[fn]; hd != nil && hd.Body != nil {
+						passes := false
+						for _, a := range call.Args {
+							if t := c.typeOf(a); t != nil && types.TypeString(t, nil) == "*bufio.Reader" {
+								passes = true
+							}
+						}
+						if passes {
+							out = append(out, c.loadFlatStmts(hd, depth+1)...)
+							continue
+						}
+					}
+				}
+			}
+		}
+		out = append(out, s)
+	}
+	return out
+}
 
 // ruleReadDiscipline: which read primitives Load may use, and that no result is dropped.
 func ruleReadDiscipline(c *Ctx, r *Report, rule string) {
 	r.rule(rule, 10, "Load and its helpers read only with io.ReadFull (plus one single-byte Read probing for end of input); every read's error is tested before the data is used (or the byte count is compared with the requested size); no Peek/Discard/ReadByte whose short result could be taken for data")
 	trailers := 0
-	for _, name := range loadFuncs {
+	for _, name := range c.loadFuncNames() {
 		_, fd := c.find(name)
 		if fd == nil {
 			r.bad(rule, name, "function not found", "")
@@ -1101,7 +1266,7 @@ func ruleHeaderGuards(c *Ctx, r *Report, rule string) {
 	}
 	got := map[string]bool{}
 	firstBody := -1
-	for i, s := range fd.Body.List {
+	for i, s := range c.loadFlatStmts(fd, 0) {
 		if as, ok := s.(*ast.AssignStmt); ok && len(as.Rhs) == 1 {
 			if call, ok := as.Rhs[0].(*ast.CallExpr); ok && c.calleeName(call) == "uvarintFromBuf" && firstBody < 0 {
 				firstBody = i
